@@ -21,9 +21,13 @@ VARIABLES l,      \* next line of TraceLog to consume
           ses,    \* session id -> abstract session state
           skip,   \* a conjunct failed in this execution: skip to Reset
           nviol,  \* number of reported violations (for the post-condition)
-          xs      \* per-execution counters printed at Reset (coverage / vacuity evidence)
+          xs,     \* per-execution counters printed at Reset (coverage / vacuity evidence)
+          res     \* result of the matched action for the current line: [s, fails].  A variable (not a
+                  \* LET) so that TLC evaluates the action once; LET bodies are re-evaluated at each use
 
-vars == <<l, ses, skip, nviol, xs>>
+vars == <<l, ses, skip, nviol, xs, res>>
+
+NoRes == [ s |-> 0, fails |-> {} ]
 
 XS0 == [ dec |-> 0, finok |-> 0, finfail |-> 0, cbn |-> 0, calls |-> 0, gettab |-> 0, build |-> 0 ]
 
@@ -276,26 +280,28 @@ Init == /\ LoadLog
         /\ skip = FALSE
         /\ nviol = 0
         /\ xs = XS0
+        /\ res = NoRes
 
-Apply(ev, res, sid) ==
-    IF res.fails = {}
-    THEN /\ ses' = [ses EXCEPT ![sid] = res.s]
-         /\ xs' = LET a0 == Avail(ses[sid])
-                      a1 == Avail(res.s)
-                      newdec == IF ev.e \in {"Recv", "SetAvail", "Finish"}
-                                THEN Cardinality((a1 \ a0) \ (res.s.rcvd \cap Src(res.s))) ELSE 0
-                  IN  [xs EXCEPT !.dec = @ + newdec,
-                                 !.finok = @ + (IF ev.e = "Finish" /\ ev.st = OK THEN 1 ELSE 0),
-                                 !.finfail = @ + (IF ev.e = "Finish" /\ ev.st # OK THEN 1 ELSE 0),
-                                 !.cbn = @ + (IF "cb" \in DOMAIN ev THEN Len(ev.cb) ELSE 0),
-                                 !.calls = @ + 1,
-                                 !.gettab = @ + (IF ev.e = "GetTab" THEN 1 ELSE 0),
-                                 !.build = @ + (IF ev.e = "Build" THEN 1 ELSE 0)]
-         /\ UNCHANGED <<skip, nviol>>
-    ELSE /\ Report(res.fails, ev, res.s)
-         /\ skip' = TRUE
-         /\ nviol' = nviol + Cardinality(res.fails)
-         /\ UNCHANGED <<ses, xs>>
+Apply(ev, r0, sid) ==
+    /\ res' = r0
+    /\ IF res'.fails = {}
+       THEN /\ ses' = [ses EXCEPT ![sid] = res'.s]
+            /\ xs' = LET a0 == Avail(ses[sid])
+                         a1 == Avail(res'.s)
+                         newdec == IF ev.e \in {"Recv", "SetAvail", "Finish"}
+                                   THEN Cardinality((a1 \ a0) \ (res'.s.rcvd \cap Src(res'.s))) ELSE 0
+                     IN  [xs EXCEPT !.dec = @ + newdec,
+                                    !.finok = @ + (IF ev.e = "Finish" /\ ev.st = OK THEN 1 ELSE 0),
+                                    !.finfail = @ + (IF ev.e = "Finish" /\ ev.st # OK THEN 1 ELSE 0),
+                                    !.cbn = @ + (IF "cb" \in DOMAIN ev THEN Len(ev.cb) ELSE 0),
+                                    !.calls = @ + 1,
+                                    !.gettab = @ + (IF ev.e = "GetTab" THEN 1 ELSE 0),
+                                    !.build = @ + (IF ev.e = "Build" THEN 1 ELSE 0)]
+            /\ UNCHANGED <<skip, nviol>>
+       ELSE /\ Report(res'.fails, ev, res'.s)
+            /\ skip' = TRUE
+            /\ nviol' = nviol + Cardinality(res'.fails)
+            /\ UNCHANGED <<ses, xs>>
 
 Step ==
     /\ l <= Len(TraceLog)
@@ -306,14 +312,16 @@ Step ==
                 /\ skip' = FALSE
                 /\ PrintT(<<"XSTAT", ev.x, xs.dec, xs.finok, xs.finfail, xs.cbn, xs.calls, xs.gettab, xs.build, skip>>)
                 /\ xs' = XS0
+                /\ res' = NoRes
                 /\ UNCHANGED nviol
            ELSE IF ev.e = "MemFault"
            THEN /\ PrintT(<<"VMSG", l, ev.x, "C07", "memfault-" \o ev.what \o "-" \o ev.op, ev.codec, ev.args>>)
                 /\ nviol' = nviol + 1
                 /\ skip' = TRUE
                 /\ UNCHANGED <<ses, xs>>
+                /\ res' = NoRes
            ELSE IF skip
-           THEN UNCHANGED <<ses, skip, nviol, xs>>
+           THEN UNCHANGED <<ses, skip, nviol, xs>> /\ res' = NoRes
            ELSE LET sid == ev.s
                     s0  == ses[sid]
                 IN  CASE ev.e = "Create"    -> Apply(ev, DoCreate(ev), sid)
@@ -329,7 +337,7 @@ Step ==
                       [] ev.e = "Expect"    -> Apply(ev, [ s |-> s0, fails |->
                                                    F(Avail(s0) = ToSet(ev.avail) /\ (Complete(s0) <=> ev.complete = 1),
                                                      "INFRA", "model-behaviour-disagrees-with-api-spec") ], sid)
-                      [] OTHER              -> UNCHANGED <<ses, skip, nviol, xs>>
+                      [] OTHER              -> UNCHANGED <<ses, skip, nviol, xs>> /\ res' = NoRes
 
 Next == Step
 
